@@ -80,7 +80,26 @@ def gen_trace_program(rng):
         uid += 1
         k = rng.below(3)
         body_stmt = stmt if callee is None else callee + ";"
-        if callee is None and rng.chance(1, 5):
+        if callee is None and rng.chance(1, 6):
+            # recursion through a finally-only try: the statement fails in the DEEPEST call; when the error is finally reported only the
+            # outermost call of the function is still active, and its entry must not name the failing line of the deeper call (the line
+            # of its own recursive call, or the end of the try statement through which the error left it, are both accepted)
+            name = "rec%d" % uid
+            emit("fn %s(n) {" % name)
+            emit("    var pad%d = n;" % uid)
+            emit("    try {")
+            emit("        if n == 0 {")
+            la = emit("            " + body_stmt)
+            emit("        }")
+            lb = emit("        %s(n - 1);" % name)
+            emit("    } finally {")
+            emit("        pad%d = pad%d + 10;" % (uid, uid))
+            lc = emit("    }")
+            emit("    return pad%d;" % uid)
+            emit("}")
+            frames.append(("%s()" % name, (lb, lc)))
+            callee = "%s(3)" % name
+        elif callee is None and rng.chance(1, 5):
             # a first exception is propagating through a finally block in which the statement chosen by the generator fails: the report is
             # that of the SECOND failure (its class, its message, its line); the superseded first throw must leave no trace
             name = "f%d" % uid
@@ -179,7 +198,11 @@ def gen_trace_program(rng):
             first = None
     else:
         first = "Unhandled %s: %s" % (kind, msg)
-    expected_trace = ["[module \"%s\", line %d] in %s" % (mod, l, lab) for lab, l, mod in trace]
+    def entry(mod, l, lab):
+        if isinstance(l, tuple):
+            return "|".join("[module \"%s\", line %d] in %s" % (mod, x, lab) for x in l)
+        return "[module \"%s\", line %d] in %s" % (mod, l, lab)
+    expected_trace = [entry(mod, l, lab) for lab, l, mod in trace]
     return src, modules, kind, first, expected_trace
 
 
@@ -211,6 +234,11 @@ FAULTS = [
     ("too-many-arguments", lambda L: (L[:10] + ["var c = add(%s);" % ", ".join("1" for _ in range(256))] + L[11:], 11)),
     ("static-with-self", lambda L: (L[:6] + ["    #[static]", "    fn m(self) {"] + L[7:], 8)),
 ]
+
+
+def trace_matches(got, want):
+    """`want` entries may list alternatives separated by `|`."""
+    return len(got) == len(want) and all(g in w.split("|") for g, w in zip(got, want))
 
 
 def correspondence(ctx, model_ok=True):
@@ -251,7 +279,7 @@ def correspondence(ctx, model_ok=True):
                 nfirst = len(msgs) - len(trace)
                 if first is not None and (not msgs or msgs[0] != first):
                     bad = "first message %r, expected %r" % (msgs[:1], first)
-                elif msgs[-len(trace):] != trace:
+                elif not trace_matches(msgs[-len(trace):], trace):
                     bad = "trace %s, expected %s" % (msgs[-len(trace):] if len(msgs) >= len(trace) else msgs, trace)
                 elif c[2]:
                     bad = "printed %s although the failing statement precedes every print" % (list(c[2]),)
@@ -362,7 +390,7 @@ def replay(ctx, payload):
     c = progs.canon_step(r[0])
     if "expected_trace" in payload:
         t = payload["expected_trace"]
-        ok = c[0] == "err" and c[1] == payload["expected_kind"] and list(c[3])[-len(t):] == t and (payload["expected_first"] is None or c[3][0] == payload["expected_first"])
+        ok = c[0] == "err" and c[1] == payload["expected_kind"] and trace_matches(list(c[3])[-len(t):], t) and (payload["expected_first"] is None or c[3][0] == payload["expected_first"])
         return ok, str(c)
     if "expected_line" in payload:
         el = payload["expected_line"] if isinstance(payload["expected_line"], list) else [payload["expected_line"]]
